@@ -290,3 +290,15 @@ Definition chk_c08_slow (c : val) : val :=
   if data_then_trailer kinds && Z.eqb (as_Z (nthv 1 impl)) 0 then verdict_ok
   else if Z.eqb (as_Z (nthv 0 input)) 2 && list_eqb Z.eqb kinds [1; 0] then verdict_propfail 9 (VL [])
   else verdict_propfail 10 (VL []).
+
+(* ---------- real-size frames over grpc-websockets (part bigws): input ( payload-size ) ; impl ( bytes-delivered status ) ----------
+   3: a frame within the message limit was not delivered whole, or an oversize frame was truncated / dropped without an
+      error (over the limit either outcome is acceptable on this transport - delivered whole, or refused with an error -
+      but never a cut frame and never silence) *)
+Definition chk_c08_bigws (c : val) : val :=
+  let d := as_Z (nthv 0 (nthv 0 c)) in
+  let delivered := as_Z (nthv 0 (nthv 1 c)) in
+  let st := as_Z (nthv 1 (nthv 1 c)) in
+  if (d <=? Extracted.grpcweb_max_len) then (if Z.eqb delivered d && Z.eqb st 0 then verdict_ok else verdict_propfail 3 (VL []))
+  else if (Z.eqb delivered d && Z.eqb st 0) || (Z.eqb delivered (-1) && negb (Z.eqb st 0)) then verdict_ok
+  else verdict_propfail 3 (VL []).
